@@ -95,20 +95,3 @@ pub broadcast proof fn axiom_rid_arr32_try_into(v: &[u8])
 pub broadcast proof fn axiom_rid_arr32ref_try_into(v: &[u8])
     ensures (#[trigger] <&[u8] as vstd::std_specs::convert::TryIntoSpec<&[u8; 32]>>::try_into_spec(v)) == rid_arr32ref_try_from(v)
 {}
-
-// ---- src/keys.rs: `impl From<&[u8; 32]> for NamespaceId / AuthorId { fn from(value) -> Self { Self(*value) } }`
-//      (transcribed, verified - not external_body) ----
-impl<'a> From<&'a [u8; 32]> for NamespaceId {
-    fn from(value: &'a [u8; 32]) -> (r: Self) ensures r.0 == *value { NamespaceId(*value) }
-}
-impl<'a> vstd::std_specs::convert::FromSpecImpl<&'a [u8; 32]> for NamespaceId {
-    open spec fn obeys_from_spec() -> bool { true }
-    open spec fn from_spec(value: &'a [u8; 32]) -> Self { NamespaceId(*value) }
-}
-impl<'a> From<&'a [u8; 32]> for AuthorId {
-    fn from(value: &'a [u8; 32]) -> (r: Self) ensures r.0 == *value { AuthorId(*value) }
-}
-impl<'a> vstd::std_specs::convert::FromSpecImpl<&'a [u8; 32]> for AuthorId {
-    open spec fn obeys_from_spec() -> bool { true }
-    open spec fn from_spec(value: &'a [u8; 32]) -> Self { AuthorId(*value) }
-}
